@@ -247,6 +247,53 @@ def assign_ids(cases):
         c.id = "c%d" % i
 
 
+FIXTURE_FILES = ["a", "aa", "ab", "b", ".hid", "x y", "é", "st*r", "a.txt", "b.txt", "sub/in", "sub/.h2", "q"]
+
+
+def make_fixture():
+    """a directory with known entries in which the in-process harness runs (glob, completion)"""
+    d = os.path.join(WORK, "fixture")
+    if not os.path.isdir(d):
+        for f in FIXTURE_FILES:
+            p = os.path.join(d, f)
+            os.makedirs(os.path.dirname(p), exist_ok=True)
+            open(p, "w").close()
+    return d
+
+
+def attach_glob(cvh, cases, tag):
+    """ask the model which patterns each case hands to the glob crate, ask the implementation's glob crate
+    what they match in the fixture directory, and put the answers into the cases' environment field"""
+    kinds = {"plan": "line", "head": "line", "plan1": "line1", "xall": "tokens", "xglob": "tokens"}
+    q = []
+    for c in cases:
+        if c.stream in kinds and "2a" in c.fields[1]:
+            qc = Case("globneeds", [c.fields[0], c.fields[1], kinds[c.stream]])
+            qc.id = "g" + c.id
+            q.append((c, qc))
+    if not q:
+        return
+    needs = run_model([x[1] for x in q], tag + "gn")
+    pats = set()
+    per = {}
+    for c, qc in q:
+        m = needs.get(qc.id)
+        if m and m[0] != "[]":
+            per[c.id] = m[0].split(",")
+            pats.update(per[c.id])
+    pl = sorted(pats)
+    qcases = []
+    for i, ph in enumerate(pl):
+        x = Case("globq", [ph]); x.id = "q%d" % i
+        qcases.append(x)
+    ans = run_harness(cvh, qcases, tag + "gq") if qcases else {}
+    table = {ph: ans.get("q%d" % i, "[]") for i, ph in enumerate(pl)}
+    for c, qc in q:
+        if c.id in per:
+            g = ",".join(ph + ":" + table[ph] for ph in sorted(set(per[c.id])))
+            c.fields[0] = c.fields[0] + ";g=" + g
+
+
 def run_harness(cvh, cases, tag, timeout=1800, shards=None):
     """run the in-process harness over the cases, sharded; returns {id: observation}.
     A shard that dies or stalls yields HANG/CRASH observations for the case in flight."""
@@ -264,6 +311,7 @@ def run_harness(cvh, cases, tag, timeout=1800, shards=None):
         prog = os.path.join(WORK, "%s.progress.%d" % (tag, k))
         env = dict(ENV)
         env["CVH_PROGRESS"] = prog
+        env["CVH_CWD"] = make_fixture()
         p = subprocess.Popen([cvh, inp, outp], env=env, stdout=subprocess.DEVNULL, stderr=subprocess.DEVNULL)
         procs.append((p, inp, outp, prog, ch))
     res = {}
@@ -393,7 +441,7 @@ def readable(stream, fields):
     return out
 
 
-def judge(rep, cases, impl, model, known, classify_nontrivial=None, max_report=3, spec_mode=None):
+def judge(rep, cases, impl, model, known, classify_nontrivial=None, max_report=3, spec_mode=None, project=None):
     """apply the verdict rules of DESIGN 2.3 to in-process / process-level observations."""
     open_k = {k["class"]: k for k in known.get("open", []) if k["property"] == rep.prop}
     diverging = []
@@ -429,12 +477,13 @@ def judge(rep, cases, impl, model, known, classify_nontrivial=None, max_report=3
                 rep.nontrivial.add(key)
         if len(rep.samples) < 6 and (rep.evaluations % 997 == 1 or len(rep.samples) < 2):
             rep.samples.append({"stream": c.stream, "input": readable(c.stream, c.fields), "impl": o, "model": M, "spec": S, "guard": g})
-        a_ok = (o == M)
+        a_ok = (o == M) or (c.meta.get('gen') == 'p' and project is not None and project(c.stream, o) == project(c.stream, M))
         if not a_ok:
             diverging.append((c, o, m))
-        if g == "1" and S != "-" and M != S:
+        pj = project if project else (lambda st, x: x)
+        if g == "1" and S != "-" and pj(c.stream, M) != pj(c.stream, S):
             thm_fail.append((c, o, m))
-        if S != "-" and o != S:
+        if S != "-" and pj(c.stream, o) != pj(c.stream, S):
             if not a_ok:
                 spec_fail_div.append((c, o, m))
             else:
